@@ -409,6 +409,27 @@ func (m *c17Monitor) judgeBuilderRule(rule venRule, schemas ast.Schemas, before,
 				m.violation(rule, "contract/merge_into-option-count", fmt.Sprintf("%d options merged, source has %d", len(added), len(src.Options)))
 				continue
 			}
+			// the constants the source sets in its constructor are set by the destination's, under the same path
+			for _, sa := range src.Constructor.Assignments {
+				if sa.Value.Constant == nil {
+					continue
+				}
+				var want []string
+				want = append(want, under...)
+				for _, it := range sa.Path {
+					want = append(want, it.Identifier)
+				}
+				found := false
+				for _, da := range after[i].Constructor.Assignments {
+					if da.Path.String() == strings.Join(want, ".") && da.Value.Constant != nil {
+						found = true
+					}
+				}
+				if !found {
+					m.violation(rule, "contract/merge_into-constructor-constant", fmt.Sprintf("the source's constructor sets %s; the destination's constructor does not set %s", sa.Path.String(), strings.Join(want, ".")))
+					return
+				}
+			}
 			for oi, so := range src.Options {
 				for ai2, sa := range so.Assignments {
 					if ai2 >= len(added[oi].Assignments) {
@@ -774,6 +795,8 @@ func c17AimSchema(pkg string) *ast.Schema {
 		ast.NewStructField("alpha", ast.String(), ast.Required()),
 		ast.NewStructField("beta", ast.NewScalar(ast.KindInt64, ast.Default(int64(4))), ast.Required()),
 		ast.NewStructField("gamma", ast.Bool()),
+		// a member whose value the schema fixes: Leaf's builder sets it in its constructor
+		ast.NewStructField("kind", ast.String(ast.Value("leaf")), ast.Required()),
 	)))
 	s.AddObject(ast.NewObject(pkg, "Custom", ast.NewStruct(ast.NewStructField("custom", ast.NewRef(pkg, "Leaf"), ast.Required()))))
 	s.AddObject(ast.NewObject(pkg, "Defaults", ast.NewStruct(ast.NewStructField("defaults", ast.NewRef(pkg, "Custom"), ast.Required()))))
